@@ -8,7 +8,12 @@ NSS = ['/', '/x']
 
 
 class Model:
-    def __init__(self, is_async, T=2, cap=2, seed=0, pairs=None):
+    def __init__(self, is_async, T=2, cap=2, seed=0, pairs=None,
+                 variant='default'):
+        # variant 'star': always_connect=True, namespaces='*', catch-all
+        # namespace handlers (no handler registered under a namespace's own
+        # name), connect handlers that may save a session themselves
+        self.variant = variant
         self.is_async = is_async
         self.T = T
         self.cap = cap          # writes per (transport, namespace)
@@ -19,15 +24,35 @@ class Model:
         return self.cap if (s, ns) == (0, '/') else max(1, self.cap - 1)
 
     def initial(self):
+        star = self.variant == 'star'
         w = ServerWorld(is_async=self.is_async,
-                        namespaces=list(NSS) + ['/ref'])
+                        namespaces='*' if star else list(NSS) + ['/ref'],
+                        always_connect=star)
+        w.save_in_connect = None
         if self.is_async:
             async def refuse(sid, environ):
                 return False
+
+            async def star_connect(ns, sid, environ):
+                if ns == '/ref':
+                    return False
+                if w.save_in_connect is not None:
+                    await w.sio.save_session(sid, dict(w.save_in_connect),
+                                             namespace=ns)
         else:
             def refuse(sid, environ):
                 return False
-        w.sio.on('connect', refuse, namespace='/ref')
+
+            def star_connect(ns, sid, environ):
+                if ns == '/ref':
+                    return False
+                if w.save_in_connect is not None:
+                    w.sio.save_session(sid, dict(w.save_in_connect),
+                                       namespace=ns)
+        if star:
+            w.sio.on('connect', star_connect, namespace='*')
+        else:
+            w.sio.on('connect', refuse, namespace='/ref')
         w.violations = []
         for _ in range(self.T):
             w.new_transport()
@@ -52,6 +77,8 @@ class Model:
                     continue
                 if (s, ns) not in w.conn:
                     ops.append(('connect', s, ns))
+                    if self.variant == 'star':
+                        ops.append(('connect-saving', s, ns))
                 else:
                     ops.append(('cdisc', s, ns))
                     ops.append(('sdisc', s, ns))
@@ -83,16 +110,27 @@ class Model:
     def apply(self, w, op):
         kind = op[0]
         sio = w.sio
-        if kind == 'connect':
+        if kind in ('connect', 'connect-saving'):
             _, s, ns = op
+            saved = None
+            if kind == 'connect-saving':
+                # the connect handler itself stores the session
+                w.counter += 1
+                saved = {'owner': [s, ns, w.slot[s],
+                                   w.gen.get((s, ns), 0) + 1],
+                         'n': w.counter}
+                w.save_in_connect = saved
             w.recv_packet(w.slot[s], 0, ns)
+            w.save_in_connect = None
             sid = w.sid_of(w.slot[s], ns)
             if sid is None:
                 self._bad(w, 'connect', f'{op} not accepted')
                 return
             w.conn[(s, ns)] = sid
-            w.ref[(s, ns)] = {}
+            w.ref[(s, ns)] = dict(saved) if saved else {}
             w.gen[(s, ns)] = w.gen.get((s, ns), 0) + 1
+            if saved:
+                w.writes[(s, ns)] = w.writes.get((s, ns), 0) + 1
         elif kind in ('dup-connect', 'connect-unserved', 'event',
                       'refused-elsewhere'):
             _, s, ns = op
@@ -326,8 +364,12 @@ def run(tier, seed, result):
     cap = 2
     small = [(0, '/'), (0, '/x'), (1, '/')]
     for is_async in (False, True):
-        runs = [(dict(pairs=small), False)] if tier == 'quick' else \
-            [({}, False), (dict(pairs=small), True)]
+        two = [(0, '/'), (0, '/x')]
+        runs = [(dict(pairs=small), False),
+                (dict(pairs=two, variant='star'), False)] \
+            if tier == 'quick' else \
+            [({}, False), (dict(pairs=small), True),
+             (dict(pairs=small, variant='star'), False)]
         for extra, fut in runs:
             # fut: with the "every transport is lost" look-ahead as part of
             # the state identity (e1.drain_future)
